@@ -1481,7 +1481,7 @@ def check_attrmods_case(ctx, case):
       x = getattr(mdl, nm)(x)
     return x
 
-  def build_outer(lifted):
+  def build_outer(lifted, t=t):
     def call(self, x, sel):
       fwd, rev = list(names), list(reversed(names))
       if t in ('jit', 'remat', 'mapvars'):
@@ -1513,8 +1513,8 @@ def check_attrmods_case(ctx, case):
     lp.KEEP_ALIVE.append(O)
     return O
 
-  def build(lifted):
-    O = build_outer(lifted)
+  def build(lifted, tt=t):
+    O = build_outer(lifted, tt)
     if case['form'] == 'ctor':
       return lambda: O(**{nm: SUBS[k]() for nm, k in zip(names, kinds)})
 
@@ -1540,11 +1540,18 @@ def check_attrmods_case(ctx, case):
   obs = {}
   for which in ('plain', 'lifted'):
     mk = build(which == 'lifted')
-    r0 = lp.call(lambda: canon(mk().init_with_output(jax.random.key(0), x, sel)))
+    if t in ('cond', 'switch', 'while'):
+      # variables cannot be created inside traced branches / loop bodies (documented), and a Python branch initialises
+      # only what it runs: initialise every sub-module with the plain straight-line composition
+      mk0 = build(False, 'jit')
+      r0 = lp.call(lambda: canon(mk0().init_with_output(jax.random.key(0), x, sel)))
+    else:
+      mk0 = mk
+      r0 = lp.call(lambda: canon(mk().init_with_output(jax.random.key(0), x, sel)))
     rec = [r0]
     if which == 'plain' and r0[0] == 'ok':
       # distinct values per attribute so that a swap of same-shaped parameters shows
-      base = mk().init(jax.random.key(0), x, sel)
+      base = mk0().init(jax.random.key(0), x, sel)
       cnt = [0]
 
       def bump(v):
@@ -1738,7 +1745,7 @@ def run(ctx):
     ctx.corpus_replayed += 1
     run_case(ctx, drv, obj.get('case', obj))
   scale = 12 if thorough else 1
-  plan = [('attrmods', 16), ('multimethod', 12), ('deepchild', 16), ('setupchild', 14), ('autoname', 12), ('history', 34), ('jit', 30), ('remat', 44), ('mapvars', 40), ('cond', 38), ('switch', 32), ('while', 32)]
+  plan = [('attrmods', 12), ('multimethod', 10), ('deepchild', 14), ('setupchild', 12), ('autoname', 10), ('history', 30), ('jit', 26), ('remat', 36), ('mapvars', 32), ('cond', 32), ('switch', 28), ('while', 28)]
   cases = []
   for what, n in plan:
     for _ in range(n * scale):
